@@ -466,6 +466,92 @@ func c01Rec(r *Run) {
 			}
 		}
 	}
+	// constructor → Parse method of the concrete type it returns (&T{…} in every return)
+	ctorParse := map[*types.Func]*types.Func{}
+	for fn, fd := range declOf {
+		if fd.Recv != nil || fd.Type.Results == nil || len(fd.Type.Results.List) != 1 {
+			continue
+		}
+		var nt *types.Named
+		okAll := true
+		ast.Inspect(fd.Body, func(n ast.Node) bool {
+			rs, ok := n.(*ast.ReturnStmt)
+			if !ok || len(rs.Results) != 1 {
+				return true
+			}
+			ue, ok := ast.Unparen(rs.Results[0]).(*ast.UnaryExpr)
+			if !ok {
+				okAll = false
+				return true
+			}
+			cl, ok := ue.X.(*ast.CompositeLit)
+			if !ok {
+				okAll = false
+				return true
+			}
+			t := namedOf(info.TypeOf(cl))
+			if t == nil || (nt != nil && nt != t) {
+				okAll = false
+				return true
+			}
+			nt = t
+			return true
+		})
+		if !okAll || nt == nil {
+			continue
+		}
+		for _, impl := range fns {
+			if impl.Name() == "Parse" {
+				if sig := impl.Type().(*types.Signature); sig.Recv() != nil && namedOf(sig.Recv().Type()) == nt {
+					ctorParse[fn] = impl
+				}
+			}
+		}
+	}
+	concreteParsers := func(recv ast.Expr, in *ast.FuncDecl) ([]*types.Func, bool) {
+		fromCall := func(e ast.Expr) (*types.Func, bool) {
+			c, ok := ast.Unparen(e).(*ast.CallExpr)
+			if !ok {
+				return nil, false
+			}
+			f, _ := calleeOf(info, c).(*types.Func)
+			if f == nil {
+				return nil, false
+			}
+			impl, ok := ctorParse[f]
+			return impl, ok
+		}
+		if impl, ok := fromCall(recv); ok {
+			return []*types.Func{impl}, true
+		}
+		id, ok := ast.Unparen(recv).(*ast.Ident)
+		if !ok {
+			return nil, false
+		}
+		obj := info.Uses[id]
+		var out []*types.Func
+		all, n := true, 0
+		ast.Inspect(in.Body, func(m ast.Node) bool {
+			as, ok := m.(*ast.AssignStmt)
+			if !ok || len(as.Lhs) != len(as.Rhs) {
+				return true
+			}
+			for i, l := range as.Lhs {
+				lid, ok := l.(*ast.Ident)
+				if !ok || (info.Defs[lid] != obj && info.Uses[lid] != obj) {
+					continue
+				}
+				n++
+				if impl, ok := fromCall(as.Rhs[i]); ok {
+					out = append(out, impl)
+				} else {
+					all = false
+				}
+			}
+			return true
+		})
+		return out, all && n > 0
+	}
 	edges := map[*types.Func][]*types.Func{}
 	for fn, fd := range declOf {
 		seen := map[*types.Func]bool{}
@@ -484,6 +570,18 @@ func c01Rec(r *Run) {
 			}
 			if sig, ok := cal.Type().(*types.Signature); ok && sig.Recv() != nil {
 				if _, isIface := sig.Recv().Type().Underlying().(*types.Interface); isIface && cal.Name() == "Parse" {
+					// the receiver is a value built by constructors of this package: use their concrete types
+					if se, ok := ast.Unparen(c.Fun).(*ast.SelectorExpr); ok {
+						if impls, ok := concreteParsers(se.X, fd); ok {
+							for _, impl := range impls {
+								if !seen[impl] {
+									seen[impl] = true
+									edges[fn] = append(edges[fn], impl)
+								}
+							}
+							return true
+						}
+					}
 					for _, impl := range stmtParserImpls {
 						if !seen[impl] {
 							seen[impl] = true
@@ -546,8 +644,12 @@ func c01Rec(r *Run) {
 		}
 	}
 	// a depth guard: a function that increments an integer field, compares it with a limit and
-	// returns an error control when exceeded
-	isGuard := func(fd *ast.FuncDecl) bool {
+	// returns an error control when exceeded; a function is guarded if it is such a guard or calls
+	// one and leaves when the guard answers non-nil
+	isGuardFn := func(fd *ast.FuncDecl) bool {
+		if fd == nil {
+			return false
+		}
 		incr, cmp := false, false
 		ast.Inspect(fd.Body, func(n ast.Node) bool {
 			switch x := n.(type) {
@@ -563,6 +665,38 @@ func c01Rec(r *Run) {
 			return true
 		})
 		return incr && cmp
+	}
+	isGuard := func(fd *ast.FuncDecl) bool {
+		if isGuardFn(fd) {
+			return true
+		}
+		// if acl := p.enter(...); acl != nil { return … }
+		found := false
+		ast.Inspect(fd.Body, func(n ast.Node) bool {
+			is, ok := n.(*ast.IfStmt)
+			if !ok || is.Init == nil {
+				return true
+			}
+			as, ok := is.Init.(*ast.AssignStmt)
+			if !ok || len(as.Rhs) != 1 {
+				return true
+			}
+			c, ok := ast.Unparen(as.Rhs[0]).(*ast.CallExpr)
+			if !ok {
+				return true
+			}
+			cal, _ := calleeOf(info, c).(*types.Func)
+			if cal == nil || !isGuardFn(declOf[cal]) {
+				return true
+			}
+			for _, st := range is.Body.List {
+				if _, ok := st.(*ast.ReturnStmt); ok {
+					found = true
+				}
+			}
+			return true
+		})
+		return found
 	}
 	r.stat("parser_recursive_components", len(sccs))
 	for _, comp := range sccs {
@@ -594,10 +728,63 @@ func c01Rec(r *Run) {
 			r.info(key, comp[0].Pos(), fmt.Sprintf("recursive helper component of %d function(s) outside the expression grammar (not judged)", len(comp)))
 			continue
 		}
-		if guarded {
-			r.ok(key, comp[0].Pos(), fmt.Sprintf("recursive component of %d functions passes a depth guard", len(comp)))
-		} else {
+		// every cycle must pass a guarded function: the component minus its guarded functions is acyclic
+		inComp := map[*types.Func]bool{}
+		for _, f := range comp {
+			inComp[f] = true
+		}
+		isG := map[*types.Func]bool{}
+		nG := 0
+		for _, f := range comp {
+			if isGuard(declOf[f]) {
+				isG[f] = true
+				nG++
+			}
+		}
+		var cyc []string
+		color := map[*types.Func]int{}
+		var dfs func(f *types.Func, path []*types.Func) bool
+		dfs = func(f *types.Func, path []*types.Func) bool {
+			color[f] = 1
+			path = append(path, f)
+			for _, w := range edges[f] {
+				if !inComp[w] || isG[w] {
+					continue
+				}
+				if color[w] == 1 {
+					start := 0
+					for i, pf := range path {
+						if pf == w {
+							start = i
+						}
+					}
+					for _, pf := range path[start:] {
+						cyc = append(cyc, strings.TrimPrefix(objKey(pf), "parser."))
+					}
+					return true
+				}
+				if color[w] == 0 && dfs(w, path) {
+					return true
+				}
+			}
+			color[f] = 2
+			return false
+		}
+		for _, f := range comp {
+			if !isG[f] && color[f] == 0 && dfs(f, nil) {
+				break
+			}
+		}
+		_ = guarded
+		if len(cyc) == 0 && nG > 0 {
+			r.ok(key, comp[0].Pos(), fmt.Sprintf("every cycle of the recursive component (%d functions) passes one of its %d depth-guarded functions", len(comp), nG))
+		} else if nG == 0 {
 			r.bad(key, comp[0].Pos(), fmt.Sprintf("recursive component of %d functions (%s, …) has no depth guard: deeply nested input overflows the Go stack, which cannot be recovered", len(comp), strings.Join(names, ", ")))
+		} else {
+			if len(cyc) > 6 {
+				cyc = append(cyc[:6], "…")
+			}
+			r.bad(key, comp[0].Pos(), fmt.Sprintf("a cycle of the recursive component avoids every depth guard: %s → (back): input nested along it overflows the Go stack", strings.Join(cyc, " → ")))
 		}
 	}
 }
